@@ -133,7 +133,7 @@ func (ib *inbound) decide(cond ssa.Value, f *pathFacts) int {
 					return tri(!trueMeansNil) // the classifier is present
 				case strings.HasSuffix(pth, ".AckRequest") && isPtr:
 					return tri((v.Ack == "nil") == trueMeansNil)
-				case strings.HasSuffix(pth, ".Cmd.ResultData") || strings.HasSuffix(pth, ".Cmd[].ResultData"):
+				case strings.HasSuffix(pth, ".Cmd.ResultData") || strings.HasSuffix(pth, ".Cmd[0].ResultData"):
 					return tri(v.Result != trueMeansNil)
 				}
 				return 0
